@@ -948,6 +948,140 @@ DIRECTED_NAN = [
 ]
 
 
+# ---------------------------------------------------------------------------------------------
+# memory layout of the coordinate arrays (Model/GridLayout.lean): == and hash read values, not bytes
+
+LAYOUT_THEN = ['none', 'copy', 'pickle', 'dict', 'reversed', 'reverse', 'scaled', 'shift', 'reverse-twice']
+
+
+def layout_view(v, mode):
+    """the values `v` as a float64 array lying in memory in layout `mode` (as `LArr.make` of the model):
+    0 fresh contiguous, 1 negative stride, 2 stride 2 in a longer buffer, 3 offset into a longer buffer"""
+    v = [float(x) for x in v]
+    if mode == 1:
+        return np.array(v[::-1], dtype='float64')[::-1]
+    if mode == 2:
+        buf = np.empty(2 * len(v), dtype='float64')
+        buf[0::2] = v
+        buf[1::2] = 7.0
+        return buf[::2]
+    if mode == 3:
+        return np.array([7.0] + v, dtype='float64')[1:]
+    return np.array(v, dtype='float64')
+
+
+def gen_layout_case(rng):
+    spec = G.gen_spec(rng, maxn=6, kinds=('sep', 'uns'))
+    narr = len(spec['data'])
+    modes = [int(rng.integers(0, 4)) for _ in range(narr)]
+    if not any(modes):
+        modes[int(rng.integers(0, narr))] = int(rng.integers(1, 4))
+    return {'family': 'layout', 'spec': spec, 'modes': modes, 'then': str(rng.choice(LAYOUT_THEN))}
+
+
+def layout_arrays(g):
+    return g.coords.separated_coords if g.is_separated else g.coords.coords
+
+
+def layout_then(g, how):
+    if how == 'copy':
+        return g.copy()
+    if how in ('pickle', 'dict'):
+        return G.roundtrip(g, how)
+    if how == 'reversed':
+        return g.reversed()
+    if how == 'reverse':
+        g.reverse()
+        return g
+    if how == 'reverse-twice':
+        g.reverse()
+        g.reverse()
+        return g
+    if how == 'scaled':
+        return g.scaled(2.0)
+    if how == 'shift':
+        g.shift(0.5)
+        return g
+    return g
+
+
+def run_layout_real(case):
+    """two grids with identical coordinates: `g` as the constructor makes it, `t` with its coordinate arrays replaced by
+    views of other buffers that denote the same values; then the same follow-up on both"""
+    import warnings
+    obs = {}
+    with warnings.catch_warnings():
+        warnings.simplefilter('ignore')
+        try:
+            g = G.build(case['spec'])
+            t = G.build(case['spec'])
+            arrs = layout_arrays(t)
+            for k, m in enumerate(case['modes']):
+                arrs[k] = layout_view(case['spec']['data'][k], m)
+            obs['flags'] = ''.join('1' if a.flags['C_CONTIGUOUS'] else '0' for a in layout_arrays(t))
+        except Exception as e:  # noqa
+            return {'error': 'setting up the layout case raised %s' % G.errkind(e)}
+
+        def safe_eq(a, b):
+            try:
+                r = a == b
+                return bool(r) if isinstance(r, (bool, np.bool_)) else 'E'
+            except Exception:  # noqa
+                return 'E'
+        obs['eq'] = [safe_eq(t, g), safe_eq(g, t), safe_eq(t, t)]
+        obs['hash'] = [G.safe_hash(t), G.safe_hash(g)]
+        try:
+            g2 = layout_then(g, case['then'])
+        except Exception:  # noqa
+            obs['then'] = 'skip'        # the follow-up fails on fresh arrays too: not a matter of layout (judged elsewhere)
+            return obs
+        try:
+            t2 = layout_then(t, case['then'])
+            obs['then'] = 'ok'
+            obs['eq2'] = [safe_eq(t2, g2), safe_eq(g2, t2)]
+            obs['hash2'] = [G.safe_hash(t2), G.safe_hash(g2)]
+            obs['points2'] = bool(np.array_equal(G.points(t2), G.points(g2)))
+        except Exception as e:  # noqa
+            obs['then'] = 'err:' + G.errkind(e)
+    return obs
+
+
+def layout_oracle(case, obs):
+    bad = []
+    lay = 'layouts %r of a %s grid' % (case['modes'], case['spec']['kind'])
+    if 'error' in obs:
+        return [('layout-setup', obs['error'])]
+    if obs['hash'][0][0] != 'ok':
+        bad.append(('hash-raises layout', 'hash() raised %s with %s' % (obs['hash'][0][1], lay)))
+    if obs['eq'][0] is not True or obs['eq'][2] is not True:
+        bad.append(('eq-identical layout', 'a grid with %s is not equal to the grid with the same values in fresh arrays (or to itself)' % lay))
+    if obs['eq'][0] != obs['eq'][1]:
+        bad.append(('eq-symmetry layout', '== is not symmetric between %s and fresh arrays' % lay))
+    if obs['eq'][0] is True and obs['hash'][0][0] == 'ok' and obs['hash'][1][0] == 'ok' and obs['hash'][0][1] != obs['hash'][1][1]:
+        bad.append(('eq-hash layout', 'equal grids hash differently: %s vs fresh arrays' % lay))
+    if obs.get('then') == 'skip':
+        pass
+    elif obs.get('then') != 'ok':
+        bad.append(('op-raises layout', '%s raised %s on a grid with %s' % (case['then'], obs.get('then'), lay)))
+    else:
+        if obs['hash2'][0][0] != 'ok':
+            bad.append(('hash-raises layout', 'hash() raised %s after %s on a grid with %s' % (obs['hash2'][0][1], case['then'], lay)))
+        if obs['eq2'][0] is not True or obs['eq2'][1] is not True or not obs['points2']:
+            bad.append(('eq-identical layout', 'after %s the grid with %s and the grid with fresh arrays differ' % (case['then'], lay)))
+        elif obs['hash2'][0][0] == 'ok' and obs['hash2'][1][0] == 'ok' and obs['hash2'][0][1] != obs['hash2'][1][1]:
+            bad.append(('eq-hash layout', 'after %s: equal grids hash differently (%s vs fresh arrays)' % (case['then'], lay)))
+    return bad
+
+
+DIRECTED_LAYOUT = [
+    {'family': 'layout', 'spec': S('c', 'sep', [[0.0, 1.0, 3.0], [0.0, 2.0]]), 'modes': [1, 0], 'then': 'none'},
+    {'family': 'layout', 'spec': S('c', 'sep', [[0.0, 1.0, 3.0], [0.0, 2.0]]), 'modes': [2, 3], 'then': 'reverse'},
+    {'family': 'layout', 'spec': S('c', 'uns', [[0.0, 1.0, 3.0], [0.5, 2.0, -1.0]]), 'modes': [3, 1], 'then': 'pickle'},
+    {'family': 'layout', 'spec': S('p', 'uns', [[1.0, 2.0], [0.5, 2.0]]), 'modes': [2, 2], 'then': 'copy'},
+    {'family': 'layout', 'spec': S('c', 'sep', [[5.0]]), 'modes': [2], 'then': 'dict'},
+]
+
+
 def dis(ctx, stream, detail, key=None):
     ctx.count('disagree:' + stream)
     ctx.disagree(stream, detail, key)
@@ -972,13 +1106,17 @@ def run(ctx):
                 '(system, kind, coordinate arrays) read from the objects; reflexive/symmetric/transitive; equal => same hash; '
                 'hash never raises; untouched grids keep their snapshot; the mutated grid has the specified new coordinates (each axis '
                 'acted on exactly once); no array owned by the caller ever changes. '
-                'Model: same ops on the Lean store; `show`, `eqrow` compared; hash(g) must equal xxh64 of the model hash input. '
+                'Plus layout cases: a separated / unstructured grid whose coordinate arrays are replaced by NumPy views with the same '
+                'values (negative stride, stride 2 in a longer buffer, offset view) against its twin with fresh arrays: ==, hash, then '
+                'copy / pickle / dict / reversed / reverse / scaled / shift on both. '
+                'Model: same ops on the Lean store; `show`, `eqrow` compared; hash(g) must equal xxh64 of the model hash input '
+                '(also computed through the modelled views, with their C_CONTIGUOUS flags). '
                 'Non-trivial = at least two live grids; distinct by (op sequence, kinds present, number of equal pairs).')
     ctx.assumptions += ['coordinates are finite floats (no NaN/inf)', 'xxhash is deterministic and collision-free on the inputs met',
                         'float arithmetic on the generated dyadic values is exact (checked per case; inexact cases skip the exact hash tie)',
                         'scale on a Cartesian separated grid with an axis of fewer than two points and no stored weights raises IndexError '
                         '(automatic weights undefined) and is treated as outside the quantifier']
-    n = ctx.scale(2500, 13000)
+    n = ctx.scale(2500, 12000)
     cases = [(c, 'directed') for c in DIRECTED + DIRECTED_SHARED + DIRECTED_FLOAT]
     for k in range(n):
         cases.append((gen_case(ctx.rng, big=(ctx.tier == 'thorough' and k % 4 == 0)), 'random'))
@@ -1007,6 +1145,20 @@ def run(ctx):
         lines += ['C10 eqnan %d %d %d %d' % (i, j, obs['flags'][i], obs['flags'][j]) for i in range(n) for j in range(n)]
         nan_plan.append((case, obs, len(all_lines) + first, n))
         all_lines += lines
+    layout_plan = []
+    for case in list(DIRECTED_LAYOUT) + [gen_layout_case(ctx.rng) for _ in range(ctx.scale(300, 1000))]:
+        obs = run_layout_real(case)
+        for key, what in layout_oracle(case, obs):
+            ctx.violation(key, what, case)
+        ctx.count('family:layout')
+        if 'error' in obs:
+            continue
+        for mm in case['modes']:
+            ctx.count('layout:' + ['contiguous', 'negative-stride', 'stride-2', 'offset'][mm])
+        ctx.count('layout-then:' + case['then'])
+        ctx.case(None, nontrivial_key=('layout', case['spec']['sys'], case['spec']['kind'], tuple(case['modes']), case['then']))
+        layout_plan.append((case, obs, len(all_lines) + 2))
+        all_lines += ['C10 reset', G.new_line('C10', case['spec']), 'C10 hashl 0 [%s]' % ','.join(str(mm) for mm in case['modes'])]
     for case, label in cases:
         steps = check_case(ctx, case, label)
         lines = ['C10 reset']
@@ -1052,6 +1204,16 @@ def run(ctx):
         real = [['ok 1' if obs['eq'][i][j] is True else 'ok 0' if obs['eq'][i][j] is False else 'E' for j in range(n)] for i in range(n)]
         if model != real:
             dis(ctx, 'C10 eq NaN', {'case': case, 'impl': obs['eq'], 'model': model, 'has-nan': obs['flags']})
+    for case, obs, at in layout_plan:
+        ctx.traces_validated += 1
+        t = out[at].split(' ')
+        if len(t) != 4 or t[0] != 'ok':
+            dis(ctx, 'C10 layout', {'case': case, 'model': out[at][:200]})
+            continue
+        if t[2] != 'f' + obs['flags'] or t[3] != '1':
+            dis(ctx, 'C10 layout', {'case': case, 'impl-contiguous-flags': obs['flags'], 'model': t[2:]})
+        elif obs['hash'][0][0] == 'ok' and G.hash_of_tokens(t[1]) != obs['hash'][0][1]:
+            dis(ctx, 'C10 layout', {'case': case, 'impl-hash': obs['hash'][0][1], 'model-hash': G.hash_of_tokens(t[1])}, key='hash')
     for case, rbase, rchecks in ref_plans:
         for shared_at, real_shared, vals, op in rchecks:
             ctx.traces_validated += 1
@@ -1074,7 +1236,7 @@ def run(ctx):
         for st, m in zip(steps, marks):
             op = st['op']
             ans = out[base + m['op']]
-            mstatus = 'ok' if ans.startswith('ok') else 'err:' + ans.split(' ')[1]
+            mstatus = 'ok' if ans.startswith('ok') else 'err:' + (ans.split(' ') + ['refused'])[1]
             ctx.traces_validated += 1
             if mstatus != st['status']:
                 dis(ctx, 'C10 op status', {'case': case, 'op': op, 'impl': st['status'], 'model': ans})
@@ -1158,6 +1320,11 @@ def run(ctx):
 def replay(ctx, case):
     if case.get('family') == 'nan':
         bad = nan_oracle(run_nan_real(case))
+        for key, what in bad:
+            print('  fails:', key, '-', what)
+        return not bad
+    if case.get('family') == 'layout':
+        bad = layout_oracle(case, run_layout_real(case))
         for key, what in bad:
             print('  fails:', key, '-', what)
         return not bad
